@@ -2,7 +2,7 @@
 # vconfirm.sh <prop> <variant>  — independent confirmation of a seeded change in a scratch worktree:
 # builds, runs the pinned suite, runs the demonstration with and without the change.
 PROP=$1; X=$2
-SRC=/tmp/seed-out/$PROP/$X
+SRC=${SEEDSRC:-/tmp/seed-out}/$PROP/$X
 WT=/tmp/cf/$PROP-$X
 OUT=$SRC/confirm.txt
 exec > $OUT 2>&1
